@@ -6,6 +6,7 @@ import sys
 from harness import seams  # noqa
 from harness.runner import Check, merge_stats, jdec
 from harness.explorer import Explorer
+from harness.continuous import ContinuousWorld
 from harness.world import State, ep_snapshot, canon, HarnessError, REQ_SENT_STATES
 from harness import protocol as P
 from harness import scenarios as S
@@ -27,14 +28,14 @@ def three_peer_confs():
             {'A': [S.IP_A], 'B': [S.IP_B], 'C': [S.IP_C]})
 
 
-def build(name, params):
+def build(name, params, cls=None):
     if name == 'established':
-        w = S.established(initiator=params.get('initiator', 'A'))
+        w = S.established(initiator=params.get('initiator', 'A'), cls=cls)
     elif name == 'empty':
-        w = S.new_world()
+        w = S.new_world(cls=cls)
     elif name == 'three':
         confs, addrs = three_peer_confs()
-        w = S.new_world(confs, addrs)
+        w = S.new_world(confs, addrs, cls=cls)
     else:
         raise HarnessError(name)
     P.set_budget(w, **params['budget'])
@@ -351,7 +352,8 @@ def run_scenario(i):
     ex = Explorer(lambda: build(sc['name'], sc['params']), enabled_for(sc), P.apply_event, monitors=MONITORS,
                   state_monitors=[sm_status] + ([sm_ended_removed] if sc['timeouts'] else []), extra_fn=P.budget_key,
                   abstraction_checks=30 if ck.quick else 100, replay_every=50 if ck.quick else 200,
-                  max_states=(6000 if ck.quick else 400000), label='%s/%s' % (sc['name'], ','.join(sc['kinds'])))
+                  max_states=(6000 if ck.quick else 400000), label='%s/%s' % (sc['name'], ','.join(sc['kinds'])),
+                  continuous_init_fn=lambda: build(sc['name'], sc['params'], cls=ContinuousWorld))
     ex.run()
     return ex.summary()
 
@@ -395,6 +397,7 @@ def main():
     m = merge_stats(stats)
     ck.coverage.update(states=m['states'], transitions=m['transitions'] + n_inj, max_depth=m['max_depth'],
                        traces_validated_against_impl=m['replays_validated'],
+                       traces_replayed_with_the_event_loop_never_left=m.get('continuous_validated', 0),
                        abstraction_checks=m['abstraction_checks'], caps_hit=m['caps_hit'],
                        exhaustive=m['completed'], injections=n_inj, distinct_injection_outcomes=n_out,
                        scenarios=[s['label'] for s in stats], per_scenario=stats, samples=samples,
